@@ -125,6 +125,18 @@ class Pair(object):
         return io
 
 
+def settle(p):
+    """the reactor delivers the connectionLost it still owes for every connection the agent closed: only then does
+    "closed cleanly with its reconnect scheduled" become decidable (a close that is owed counts as scheduled until then)"""
+    for _ in range(4):
+        closing = [c.id for c in p.sim.world.connectors if c.state == 'closing']
+        if not closing:
+            break
+        for cid in closing:
+            if p.sim.enabled({'k': 'lost', 'c': cid}):
+                p.step({'k': 'lost', 'c': cid})
+
+
 def run_walk(conf, events, driver, res):
     p = Pair(conf, driver, res)
     for ev in events:
@@ -290,6 +302,7 @@ def run(seed, tier, driver):
                              {'cfg': conf, 'events': list(p.trace)}, key='update-teardown')
                 if p.sim.enabled({'k': 'chunk', 'c': 0}):
                     p.step({'k': 'chunk', 'c': 0, 'hex': SG.KEEPALIVE.hex()})
+                settle(p)
                 res.stats.case(('script', jdump(conf), ol, fl), sample=None)
                 res.stats.hit('script_' + fl.split('_')[0])
     two_sessions(driver, res, r, tier)
@@ -354,6 +367,7 @@ def two_sessions(driver, res, r, tier):
                         break
                     p.step({'k': 'advance', 'dt': min(times) - w.now})
                 cid = len(p.sim.world.connectors) - 1
+            settle(p)
             res.stats.case(('two-sessions', jdump(conf), a, b), sample=None)
             res.stats.hit('two_sessions')
 
@@ -385,6 +399,7 @@ def octet_tables(driver, res, r, tier):
             if p.last['state'] != st or not p.sim.enabled({'k': 'chunk', 'c': 0}):
                 continue
             p.step({'k': 'chunk', 'c': 0, 'hex': b.hex()})
+            settle(p)
             res.stats.case(('octets', st, label), sample=None)
             res.stats.hit('octet_tables_' + st)
 
@@ -457,6 +472,34 @@ def handler_faults(res, r, tier):
                     do({'k': 'advance', 'dt': min(times) - w.now})
             res.stats.case(('handler-fault', meth, nth), sample={'handler_fault': meth, 'nth': nth, 'fired': count['n'] >= nth})
             res.stats.hit('handler_fault_' + ('fired' if count['n'] >= nth else 'not_reached'))
+    # the application asks the agent to send through the handler's internal queue (BaseHandler.inter_mq): the requests are
+    # carried out when the next KEEPALIVE arrives - UPDATEs and a NOTIFICATION; the counters must follow what is written
+    for items in ([('update', 1)], [('update', 3)], [('update', 2), ('notification', 1)]):
+        sim = S.Sim(conf)
+        mon = Monitor(res, conf, full)
+        mon.only = {'C18'}
+
+        def do(ev, sim=sim, mon=mon):
+            if not sim.enabled(ev):
+                return False
+            o = sim.step(ev)
+            mon.step(ev, o, sim)
+            return True
+        do({'k': 'boot'})
+        do({'k': 'connok', 'c': 0})
+        do({'k': 'chunk', 'c': 0, 'hex': pool['open_ok'].hex()})
+        do({'k': 'chunk', 'c': 0, 'hex': pool['keepalive'].hex()})
+        for kind, n in items:
+            for i in range(n):
+                if kind == 'update':
+                    sim.handler.inter_mq.put({'type': 'update', 'msg': {
+                        'attr': {1: 0, 2: [], 3: '10.0.0.1'}, 'nlri': ['10.%d.0.0/16' % i], 'withdraw': []}})
+                else:
+                    sim.handler.inter_mq.put({'type': 'notification', 'msg': {'error': 6, 'sub_error': 4, 'data': b''}})
+        do({'k': 'chunk', 'c': 0, 'hex': pool['keepalive'].hex()})
+        do({'k': 'chunk', 'c': 0, 'hex': pool['keepalive'].hex()})
+        res.stats.case(('handler-queue', jdump(items)), sample=None)
+        res.stats.hit('handler_queue')
 
 
 def replay_witness(wit, driver):
